@@ -302,6 +302,8 @@ def r13(ctx):
 
 
 def run(ctx):
+    import rules.C03 as c03
+    c03.initial_state_rule(ctx, 'C02.R16')
     r13(ctx)
     r7(ctx)
     r1(ctx)
